@@ -301,7 +301,7 @@ pub fn main(args: &[String]) -> i32 {
             "ans": ans, "fold": fold_stmt,
         }));
         status.emit(&json!({"id": id, "expr": expr, "status": "ok", "ans": ans, "fold": fold_stmt, "same": same as u8,
-                            "nrho": rl.len(), "nrho_total": total, "andor_multi_tail": tail as u8, "nx": nx, "va": uv as u8, "pure_differs": pure_differs as u8}));
+                            "nrho": rl.len(), "nrho_total": total, "andor_multi_tail": tail as u8, "names": names, "va": uv as u8, "pure_differs": pure_differs as u8}));
     }
     out.flush();
     status.flush();
